@@ -52,6 +52,7 @@ type runCfg struct {
 	addBOS    bool
 	flashAttn bool
 	decodeErr int // arm 2: one Decode in decodeErr fails
+	images    int // > 0: a (simulated) clip projector is loaded and prompts refer to this many images
 
 	nClients     int
 	reqPerClient int
@@ -63,8 +64,8 @@ type runCfg struct {
 
 func (c *runCfg) String() string {
 	mode := [...]string{"shift", "no-shift", "recurrent"}[c.cacheMode]
-	return fmt.Sprintf("arm=%d parallel=%d ctx=%d batch=%d multiuser=%v cache=%s pad=%d addBOS=%v flashAttn=%v decodeErr=1/%d clients=%d x%d cancel=1/%d slow=1/%d writeErr=1/%d",
-		c.arm, c.parallel, c.numCtx, c.batch, c.multiUser, mode, c.pad, c.addBOS, c.flashAttn, c.decodeErr, c.nClients, c.reqPerClient, c.cancelRate, c.slowRate, c.writeErrRate)
+	return fmt.Sprintf("arm=%d parallel=%d ctx=%d batch=%d multiuser=%v cache=%s pad=%d addBOS=%v flashAttn=%v decodeErr=1/%d images=%d clients=%d x%d cancel=1/%d slow=1/%d writeErr=1/%d",
+		c.arm, c.parallel, c.numCtx, c.batch, c.multiUser, mode, c.pad, c.addBOS, c.flashAttn, c.decodeErr, c.images, c.nClients, c.reqPerClient, c.cancelRate, c.slowRate, c.writeErrRate)
 }
 
 func drawRunCfg(prop, tier string) *runCfg {
@@ -99,6 +100,9 @@ func drawRunCfg(prop, tier string) *runCfg {
 	c.addBOS = d("addbos", 4) == 0
 	if c.arm == 2 {
 		c.decodeErr = 20 + d("decodeerr", 60)
+	}
+	if !c.textBias && d("images", 5) == 0 {
+		c.images = 1 + d("nimages", 3)
 	}
 
 	maxClients := 5
@@ -227,8 +231,23 @@ func (w *runWorld) newServer(name string, parallel, batch int, clean bool) *simS
 	}
 	s.ready.Add(1)
 	s.cond = verifsim.NewCond(&s.mu)
-	// the real loadModel: LoadModelFromFile, NewContextParams, NewContextWithModel, NewInputCache
-	s.loadModel(llama.ModelParams{Progress: func(p float32) { s.progress = p }}, path, nil, "", cfg.numCtx*parallel, "", cfg.flashAttn, 1, cfg.multiUser)
+	ppath := ""
+	if cfg.images > 0 {
+		// a llava-style projector: image bytes {rows, id} -> rows embeddings (id, row, 0, 0)
+		ppath = path + "/mmproj"
+		llama.RegisterSimClip(ppath, func(data []byte) ([][]float32, error) {
+			if len(data) != 2 {
+				return nil, errors.New("sim clip: bad image")
+			}
+			out := make([][]float32, int(data[0]))
+			for k := range out {
+				out[k] = []float32{float32(data[1]), float32(k), 0, 0}
+			}
+			return out, nil
+		})
+	}
+	// the real loadModel: LoadModelFromFile, NewContextParams, NewContextWithModel, NewImageContext, NewInputCache
+	s.loadModel(llama.ModelParams{Progress: func(p float32) { s.progress = p }}, path, nil, ppath, cfg.numCtx*parallel, "", cfg.flashAttn, 1, cfg.multiUser)
 	srv.s = s
 	srv.slotReq = make([]*reqState, parallel)
 	return srv
@@ -445,11 +464,16 @@ type reqState struct {
 	done       bool
 }
 
+// tokensString renders a prompt: token ids, and [img-k] for the image marker -(k+1).
 func tokensString(t []int32) string {
 	var sb strings.Builder
 	for i, x := range t {
 		if i > 0 {
 			sb.WriteByte(' ')
+		}
+		if x < 0 {
+			sb.WriteString("[img-" + strconv.Itoa(int(-x-1)) + "]")
+			continue
 		}
 		sb.WriteString(strconv.Itoa(int(x)))
 	}
@@ -516,6 +540,7 @@ type runWorld struct {
 	v       *vocab
 	main    *simServer
 	bases   [][]int32
+	imgRows []int // image k becomes imgRows[k] embeddings
 	reqs    []*reqState
 	nDone   int // clients finished
 	desc    []string
@@ -589,6 +614,9 @@ func (w *runWorld) drawToken() int32 {
 	if n < 1 {
 		return 1
 	}
+	if w.cfg.images > 0 && verifsim.Draw("img", 8) == 0 {
+		return int32(-(1 + verifsim.Draw("imgid", w.cfg.images)))
+	}
 	return int32(1 + verifsim.Draw("tok", n))
 }
 
@@ -628,10 +656,21 @@ func (w *runWorld) drawBases() {
 
 // effective: the inputs NewSequence will see for a prompt (BOS in front when the model wants one).
 func (w *runWorld) effective(prompt []int32) []int32 {
-	if !w.cfg.addBOS {
-		return prompt
+	var out []int32
+	if w.cfg.addBOS {
+		out = append(out, w.v.bos)
 	}
-	return append([]int32{w.v.bos}, prompt...)
+	for _, t := range prompt {
+		if t >= 0 {
+			out = append(out, t)
+			continue
+		}
+		k := int(-t - 1)
+		for row := 0; row < w.imgRows[k]; row++ {
+			out = append(out, int32(llama.EmbedID([]float32{float32(k), float32(row)})))
+		}
+	}
+	return out
 }
 
 // drawRequest is called by the client task when it is about to send: the
@@ -758,7 +797,20 @@ func (w *runWorld) doRequest(srv *simServer, r *reqState) {
 	opts.NumPredict = r.numPredict
 	opts.NumKeep = r.numKeep
 	opts.Stop = r.stops
-	body, err := json.Marshal(llm.CompletionRequest{Prompt: tokensString(r.prompt), Options: &opts})
+	var images []llm.ImageData
+	for _, t := range r.prompt {
+		if t < 0 {
+			k := int(-t - 1)
+			known := false
+			for _, im := range images {
+				known = known || im.ID == k
+			}
+			if !known {
+				images = append(images, llm.ImageData{ID: k, Data: []byte{byte(w.imgRows[k]), byte(k)}})
+			}
+		}
+	}
+	body, err := json.Marshal(llm.CompletionRequest{Prompt: tokensString(r.prompt), Images: images, Options: &opts})
 	if err != nil {
 		panic(err)
 	}
@@ -810,7 +862,10 @@ func (w *runWorld) doEmbedding(srv *simServer, r *reqState, key string) {
 	if err != nil {
 		panic(err)
 	}
-	hr, _ := http.NewRequestWithContext(context.Background(), "POST", "/embedding", bytes.NewReader(body))
+	// (the handler only honours the context while it waits for a free entry of Server.seqs)
+	ctx, cancel := context.WithCancel(context.Background())
+	w.cancels = append(w.cancels, cancel)
+	hr, _ := http.NewRequestWithContext(ctx, "POST", "/embedding", bytes.NewReader(body))
 	mw := &memWriter{hdr: http.Header{}, r: r, cancel: func() {}}
 	srv.s.embeddings(mw, hr)
 	verifsim.Yield("client:returned")
@@ -883,11 +938,17 @@ func runLlamaRunner(t *testing.T, tape *verifsim.Tape, prop, tier string, keepLo
 		w := &runWorld{t: t, prop: prop, tier: tier, cfg: cfg, other: map[string]int{}}
 		w.v = drawVocab(tier)
 		w.v.finish()
+		for k := 0; k < cfg.images; k++ {
+			w.imgRows = append(w.imgRows, 1+verifsim.Draw("imgrows", 4))
+		}
 		w.drawBases()
 		w.note("config: %s", cfg)
 		w.note("%s", w.v.describe())
 		res.Info["arm"+strconv.Itoa(cfg.arm)]++
 		res.Info["cache_"+[...]string{"shift", "noshift", "recurrent"}[cfg.cacheMode]]++
+		if cfg.images > 0 {
+			res.Info["with_images"]++
+		}
 
 		w.main = w.newServer("main", cfg.parallel, cfg.batch, false)
 		srv := w.main
@@ -928,6 +989,10 @@ func runLlamaRunner(t *testing.T, tape *verifsim.Tape, prop, tier string, keepLo
 			stop = sim.RunUntil(func() bool { return !srv.s.mu.Held() && srv.s.allNil() }, time.Minute, 20000)
 			if stop != verifsim.CondTrue {
 				res.Info["drain_"+stop.String()]++
+				if stop == verifsim.Idle && srv.fatal != "" {
+					// an injected Decode failure ended the run loop while the last sequences were leaving
+					res.Info["drain_runner_fatal"]++
+				}
 			}
 		}
 		srv.onStep()
@@ -980,6 +1045,16 @@ func runLlamaRunner(t *testing.T, tape *verifsim.Tape, prop, tier string, keepLo
 		}
 		srv.stop(sim)
 		sim.Drain(100*time.Millisecond, 20000)
+		// an embeddings handler waits for its sequence without a way out; the run loop is gone
+		for _, sq := range srv.s.seqs {
+			if sq != nil && sq.embeddingOnly {
+				func() {
+					defer func() { recover() }()
+					close(sq.embedding)
+				}()
+			}
+		}
+		sim.Drain(100*time.Millisecond, 2000)
 		sim.AbortCondWaiters()
 		sim.Crash()
 		if n := sim.LiveTasks(); n > 0 {
@@ -1002,20 +1077,21 @@ func TestVerifLlamaRunner(t *testing.T) {
 		PanicProps: []string{"C07", "C14"},
 		Real: []string{"runner/llamarunner/runner.go (instrumented: Server.run, processBatch, completion and embeddings handlers, NewSequence, inputs, flushPending, removeSequence, loadModel)",
 			"runner/llamarunner/cache.go (instrumented: InputCache, LoadCacheSlot, findLongest/BestCacheSlot with the KvCacheSeqCp fork, ShiftCacheSlot, ShiftDiscard)",
+			"runner/llamarunner/image.go (ImageContext: NewImageContext, NewEmbed with the image cache, BatchSize, EmbedSize, NeedCrossAttention; over the simulated clip projector)",
 			"runner/common/stop.go", "golang.org/x/sync/semaphore", "encoding/json stream encoding of llm.CompletionResponse"},
 		Stub: []string{"package llama (cgo binding of llama.cpp) replaced by harness/llamafake: pure-Go model of llama.cpp's unified KV cache written after llama-kv-cache.cpp / llama_context::decode (cells with position, sequence-id set and token payload; seq_rm, seq_cp, seq_add, find_slot, defrag, K-shift, restore on failure; attention mask = cells of the entry's sequence with position <= its own), plus a recurrent-state mode (no partial erase) and a cannot-shift mode",
 			"model (scripted network: next token = script(hash(visible (token, position) list)))",
 			"tokenizer (per-run byte-string vocabulary: split multi-byte characters, stop-string fragments, invalid bytes, EOS, optional BOS)", "sampler (llama.SamplingContext returns the scripted token of the batch row)",
 			"HTTP transport (in-memory ResponseWriter; clients call Server.completion directly)",
-			"not driven: image / clip / mllama inputs and cross-attention batches, LoRA, real model loading (loadModel runs, over the stand-in package); embedding vectors are zeros (the embeddings handler is driven for its use of slots and the run loop only)"},
+			"clip projector (simulated: image bytes -> 1-4 embeddings; the real ImageContext with its image cache runs over it in one run out of five)", "not driven: mllama inputs and cross-attention batches, LoRA, real model loading (loadModel runs, over the stand-in package); embedding vectors returned by the embeddings handler are zeros (it is driven for its use of slots and the run loop only)"},
 		Rule: map[string]string{
-			"C07": "llamarunner stage: one evaluation = one simulated execution of the real llamarunner.Server (run loop + 1-10 concurrent completion handlers, 1-4 slots) over the llama.cpp KV cache model, with tape-drawn configuration (context, batch, slot policy, cache that shifts / cannot shift / is recurrent, cache padding, BOS), request history (prompt tree with shared prefixes, repeats, continuations, over-long prompts, one request in ten to the embeddings handler), client behaviour (cancel, slow reader, write error), Decode failures and interleaving, followed by one fresh single-slot reference Server per request; non-trivial = at least two tasks were runnable at some step and at least one request ran to completion; distinct = different hash of the (task, label, simulated time) decision sequence",
+			"C07": "llamarunner stage: one evaluation = one simulated execution of the real llamarunner.Server (run loop + 1-10 concurrent completion handlers, 1-4 slots) over the llama.cpp KV cache model, with tape-drawn configuration (context, batch, slot policy, cache that shifts / cannot shift / is recurrent, cache padding, BOS, with or without an image projector), request history (prompt tree with shared prefixes, repeats, continuations, over-long prompts, image references that become embedding inputs and embedding batches, one request in ten to the embeddings handler), client behaviour (cancel, slow reader, write error), Decode failures and interleaving, followed by one fresh single-slot reference Server per request; non-trivial = at least two tasks were runnable at some step and at least one request ran to completion; distinct = different hash of the (task, label, simulated time) decision sequence",
 			"C14": "llamarunner stage: one evaluation = one simulated execution as for C07 (without the reference servers), biased towards generation: per-run vocabulary with split multi-byte characters, stop-string tilings and invalid bytes, 0-4 stop strings per request, prediction limits 1-40 or none, EOS; non-trivial = at least two tasks were runnable at some step and at least one request ran to completion; distinct = different hash of the decision sequence",
 		},
 		NonTrivial: func(prop string, r *verifsim.Result) bool { return r.MaxRunnable >= 2 && r.Info["req_completed"] > 0 },
 		Assumptions: []string{"instrumentation (yields at synchronisation points, Mutex/Cond type swap, select determinisation) preserves single-threaded semantics",
 			"testing/synctest fake clock and quiescence detection", "pre-emption only at synchronisation points (channel operations, locks, condition waits, semaphore, response writes, llama Decode)",
 			"the llama.cpp stand-in (harness/llamafake) reproduces the cell bookkeeping of llama-kv-cache.cpp and the mask of llama-graph.cpp for the calls the runner makes; llama.cpp's own tensor code (K-shift and defrag data movement, attention kernels) is assumed to implement that bookkeeping correctly",
-			"image embeddings and cross-attention batches of runner/llamarunner are not driven"},
+			"mllama inputs and cross-attention batches of runner/llamarunner are not driven"},
 	})
 }
